@@ -637,6 +637,10 @@ class Evaluator:
             if a.val is not None and b.val is not None and isinstance(a.val, (int, float)) and isinstance(b.val, (int, float)):
                 try:
                     r = {ast.Add: a.val + b.val, ast.Sub: a.val - b.val, ast.Mult: a.val * b.val}.get(type(node.op))
+                    if r is None and isinstance(node.op, ast.Div):
+                        if b.val == 0:
+                            raise AbsRaise('ZeroDivisionError', 'division by zero')
+                        r = a.val / b.val
                     if r is None and isinstance(node.op, (ast.FloorDiv, ast.Mod)) and isinstance(a.val, int) and \
                             isinstance(b.val, int) and b.val != 0:
                         r = a.val // b.val if isinstance(node.op, ast.FloorDiv) else a.val % b.val
